@@ -105,8 +105,15 @@ def materialise(case):
     cutset = set()
     forced = set()  # cuts that are always followed by a pause longer than the clients' read timeout
     nonascii = [i for i, x in enumerate(items) if any(ch >= 0x80 for ch in x[1])]
+    quiet = set()  # cuts followed by a long silence (seconds, not milliseconds)
     for c in case["cuts"]:
-        if isinstance(c, (list, tuple)) and c[0] == "u":
+        if isinstance(c, (list, tuple)) and c[0] == "q":
+            # the feed falls silent for 2.6 s before line i starts
+            a, n = offs[c[1] % len(offs)]
+            if not quiet and a > 0:  # (one silence per case)
+                cutset.add(a)
+                quiet.add(a)
+        elif isinstance(c, (list, tuple)) and c[0] == "u":
             # inside a line with non-ASCII bytes: just before the first such byte, after it, or
             # just after the last one - the pieces on the two sides differ in UTF-8 validity
             if not nonascii:
@@ -132,6 +139,9 @@ def materialise(case):
         d = DELAYS[case["delays"][i % len(case["delays"])] % len(DELAYS)] if case["delays"] else 0.0
         if bounds[i + 1] in forced:
             d = 0.15
+        if bounds[i + 1] in quiet:
+            segs.append((stream[bounds[i]:bounds[i + 1]], 2.6))
+            continue
         if d > 0.05:
             if long_budget - d < 0:
                 d = 0.0
@@ -417,7 +427,7 @@ def worker(args):
     case_s = st.fixed_dictionaries({
         "client": st.sampled_from(["1090", "radar", "radar"]),
         "items": st.lists(item, min_size=1, max_size=24),
-        "cuts": st.lists(st.one_of(st.integers(0, 10000), st.tuples(st.just("s"), st.integers(0, 23), st.integers(0, 3)), st.tuples(st.just("u"), st.integers(0, 23), st.integers(0, 2))), max_size=24),
+        "cuts": st.lists(st.one_of(st.integers(0, 10000), st.tuples(st.just("s"), st.integers(0, 23), st.integers(0, 3)), st.tuples(st.just("u"), st.integers(0, 23), st.integers(0, 2)), st.tuples(st.just("q"), st.integers(0, 23))), max_size=24),
         "delays": st.lists(st.integers(0, len(DELAYS) - 1), min_size=1, max_size=8),
         "drop": drop,
         "limit": st.sampled_from([False, False, True]),
@@ -495,6 +505,8 @@ def main():
         # played on every run: the server drops the connection and is then unreachable (attempts
         # time out instead of being refused) for longer than one connection timeout
         extra_cases=[{"client": "radar", "items": [["g", 3], ["g", 7], ["b", 4], ["g", 11], ["g", 12]], "cuts": [], "delays": [0], "drop": {"at": 5000, "retry": True, "reset": r, "stall": True}, "limit": False} for r in (False, True)]
+        # a line cut in two (pause longer than the read timeout) right after the feed was silent for 2.6 s
+        + [{"client": cl, "items": [["g", 3], ["g", 7], ["g", 11], ["g", 12], ["g", 13]], "cuts": [["q", 2], ["s", 2, w], ["s", 4, 1]], "delays": [5], "drop": None, "limit": False} for cl in ("1090", "radar") for w in (1, 2)]
         # ... and the server goes away completely (attempts refused) for 1, 4 and 9 seconds
         + [{"client": "radar", "items": [["g", 3], ["g", 7], ["b", 4], ["g", 11], ["g", 12]], "cuts": [], "delays": [0], "drop": {"at": 5000, "retry": True, "reset": g == 4, "gone": g}, "limit": False} for g in (1, 4, 9)]
         # ... and every malformed kind, each followed by a well-formed line, under every option set of both clients
